@@ -69,9 +69,10 @@ def run(ctx):
     for f in sorted(glob.glob(os.path.join(cdir, "*.wa.go"))):
         progs.append(("corpus:" + os.path.basename(f)[:-6], open(f).read(), None, False, False))
     bodies = [(k,) + v for k, v in c11_progs.LOOP_BODIES.items()]
-    half = (len(bodies) + 1) // 2
-    for j, part in enumerate([bodies[:half], bodies[half:]]):
-        progs.append(("loops:%d" % j, c11_progs.loop_program(part, n_loop), ["loop:" + b[0] for b in part], False, False))
+    per = 4 if quick else 3        # bodies per program: the instrumented runs are the long pole, so spread them
+    for j in range(0, len(bodies), per):
+        part = bodies[j:j + per]
+        progs.append(("loops:%d" % (j // per), c11_progs.loop_program(part, n_loop), ["loop:" + b[0] for b in part], False, False))
     progs.append(("loops:traced", c11_progs.loop_program(bodies, 10), ["loop:" + b[0] for b in bodies], False, True))
     cyc = [(k,) + v for k, v in c11_progs.CYCLE_BODIES.items()]
     progs.append(("cycles", c11_progs.loop_program(cyc, min(n_loop, 1000)), ["cycle:" + b[0] for b in cyc], True, False))
